@@ -185,6 +185,14 @@ FLAGS = [
      r"if !\(timed_out && self\.hardness\) \{\s*client\.finish_ok\(",
      r"must leave the master in the Stopping state\"\s*\);\s*client\.finish_ok\(",
      "StopTask::on_finish sends finish_ok only when it did not already send the timed-out failure"),
+    ("hubRetiresAnsweredIds", "bin/src/command/server.rs",
+     r"\.on_message\(&mut self\.server, client, worker_id, response\);\s*if terminal \{\s*self\.in_flight\.remove\(&response_id\);",
+     r"\.on_message\(&mut self\.server, client, worker_id, response\);\s*\}\s*fn handle_finishing_task",
+     "handle_worker_response removes the in-flight id once it got a terminal answer (false: a duplicate answer is counted again)"),
+    ("hubAnswersUnsupportedVerbs", "bin/src/command/requests.rs",
+     r"RequestType::LaunchWorker\(_\) => \{\s*client\.finish_failure\(",
+     r"RequestType::LaunchWorker\(_\) => \{\} // not yet implemented",
+     "request_type None / LaunchWorker / ReturnListenSockets are answered with a failure (false: never answered, F21)"),
 ]
 
 
